@@ -1,7 +1,9 @@
 /- Obligations over the regenerated tables (written by harness/extract_c02.py; the text is constant, the
    tables it speaks about are not).  `dispatch_ok` is what makes every theorem of Props/C02.lean, proved
    over `expectedDispatch`, a statement about the current class hierarchy; `attrKinds_ok` is what makes
-   the heap layout assumed by `Rep` the layout of the live objects. -/
+   the heap layout assumed by `Rep` the layout of the live objects; `writes_ok` is what makes the frame of
+   the heap model (the in-place pass rebinds `points` of shape objects and nothing else) the behaviour of
+   the live methods. -/
 import MenpoModel.Generated.C02Dispatch
 
 namespace MenpoModel.C02.GenProps
@@ -18,5 +20,21 @@ theorem attrKinds_ok : kindsWF Generated.dispatch Generated.attrKinds = true := 
 
 /-- every class of the table was observed -/
 theorem attrKinds_cover : kindsCover Generated.dispatch Generated.attrKinds = true := by decide
+
+/-- the attributes the live `_transform_inplace` rebinds on each object of the private copy are exactly
+those the heap model rebinds (`inplaceWrites`, `inplace_writes_in_table`) -/
+theorem writes_ok : writesAgree Generated.dispatch Generated.measuredWrites = true := by decide
+
+/-- every transformable class of the table was measured -/
+theorem writes_cover : writesCover Generated.dispatch Generated.measuredWrites = true := by decide
+
+/-- no array buffer written in place, no dict item rebound, the transform untouched -/
+theorem no_other_writes : Generated.otherWrites = [] := by decide
+
+/-- every concrete transform class resolves `apply` to `Transform.apply` (transcribed as `applyT`) and
+`_apply` / `_apply_batched` to the implementation the model
+transcribes for it (`homApply`, `affineApply`, `chainFn`, `withDims`, `applyBatched`) or treats as a contract
+parameter; no transform class has appeared or disappeared -/
+theorem applyTable_ok : Generated.applyTable = expectedApplyTable := by decide
 
 end MenpoModel.C02.GenProps
